@@ -670,15 +670,20 @@ impl<'a> Interp<'a> {
             Expr::Star(b) | Expr::Plus(b) => {
                 let mut p = pos;
                 let mut n = 0usize;
+                let mut idle = 0usize;
                 loop {
                     let mark = fields.len();
                     match self.eval(rule, b, p, skipping, fields) {
                         Ok(np) => {
                             if np == p {
-                                // a closure body that succeeds without consuming: documented
-                                // non-termination; outside the model
-                                self.gave_up = true;
-                                return Err(Fail);
+                                // a closure body that succeeds without consuming: with stateful user functions it
+                                // may still end (a few such iterations are followed); otherwise it is the
+                                // documented non-termination, outside the model
+                                idle += 1;
+                                if idle > 16 {
+                                    self.gave_up = true;
+                                    return Err(Fail);
+                                }
                             }
                             p = np;
                             n += 1;
